@@ -115,6 +115,61 @@ XLcdx(e) ==
        \cup (IF \A d \in Rng(w.deps) : d[1] \in Rng(w.ids) /\ (d[2] = "" \/ d[2] \in Rng(w.ids)) THEN {} ELSE {pfx \o "dangling"})
        \cup Identity(e, g0, FALSE, pfx)
 
+(* ------------------------------ C05 ------------------------------------ *)
+\* one abstract input parsed in five JSON layouts, twice with auto-detection and once with the format stated
+OkRes(e) == {r \in Rng(e.results) : r.o.kind = "ok"}
+SameGraph(a, b) == LET x == NL(a.doc) y == NL(b.doc) IN
+                   ListCanonS(x) = ListCanonS(y) /\ IdsSeq(x) = IdsSeq(y)
+                   /\ MetaF(a.doc, "name") = MetaF(b.doc, "name") /\ MetaF(a.doc, "version") = MetaF(b.doc, "version")
+JParse(e) ==
+  LET R == Rng(e.results) ok == OkRes(e) IN
+  {"parse.total." \o r.o.kind : r \in {x \in R : x.o.kind \notin {"ok", "err"}}}
+  \cup (IF \A a, b \in R : (a.layout # "escaped" /\ b.layout # "escaped") => a.o.kind = b.o.kind THEN {} ELSE {"parse.layout.outcome"})
+  \cup (IF \A a, b \in ok : (a.layout = b.layout /\ a.mode = b.mode) => SameGraph(a, b) THEN {} ELSE {"parse.deterministic"})
+  \cup (IF \A a, b \in ok : (a.layout = b.layout /\ a.mode # b.mode) => SameGraph(a, b) THEN {} ELSE {"parse.auto-explicit"})
+  \cup (IF \A a, b \in ok : (a.layout # "escaped" /\ b.layout # "escaped") => SameGraph(a, b) THEN {} ELSE {"parse.layout"})
+  \* string escapes: a separate clause because of the known finding in the third-party SPDX decoder
+  \cup (IF \A a \in {x \in R : x.layout = "escaped"}, b \in {x \in R : x.layout = "compact"} :
+              a.o.kind = b.o.kind /\ (a.o.kind = "ok" => SameGraph(a, b))
+        THEN {} ELSE {"parse.layout.escapes." \o e.kind})
+  \cup UNION {LET g == NL(r.doc) IN
+               (IF "" \in Ids(g) THEN {"parse.id-empty"} ELSE {})
+               \cup (IF (e.inputunique => UniqueIds(g)) /\ (r.layout # "escaped" => Cardinality(Ids(g)) = e.inputkeys) THEN {} ELSE {"parse.ids"})
+               \cup (IF e.resolves /\ ~Closed(g)
+                     THEN (IF e.kind = "spdx" /\ e.docrel
+                              /\ \A t \in Triples(g) : {t[1], t[3]} \subseteq Ids(g) \cup {"DOCUMENT"}
+                           THEN {"parse.closed.document-endpoint"} ELSE {"parse.closed"})
+                     ELSE {})
+               \cup (IF NoDup(r.auto) /\ r.autosafe THEN {} ELSE {"parse.autoid"}) : r \in ok}
+
+(* ------------------------------ C06 ------------------------------------ *)
+CDXF(v) == "application/vnd.cyclonedx+json;version=" \o v
+SPDXJ(v) == "text/spdx+json;version=" \o v
+SPDXT(v) == "text/spdx+text;version=" \o v
+DStr(d, k) == IF d[k].t = "string" THEN d[k].v ELSE ""
+JSniff(e) ==
+  LET d == e.decl IN
+  (IF e.o.kind = "ok" THEN {} ELSE {"sniff.total." \o e.o.kind})
+  \cup (IF e.o.kind = "ok" /\ ((e.res = "") # e.err) THEN {"sniff.result-xor-error"} ELSE {})
+  \cup (IF e.o.kind = "ok" /\ e.pos # 0 THEN {"sniff.position"} ELSE {})
+  \cup (IF e.restlen >= 0 /\ e.restlen # e.len THEN {"sniff.consumed"} ELSE {})
+  \cup (IF e.want # "" /\ e.res # e.want THEN {"sniff.writer-output"} ELSE {})
+  \* a reported format is backed by the declaration, and its accessors agree with it
+  \cup (IF e.res = "" THEN {}
+        ELSE IF d.object
+        THEN (IF \/ (d.bf_fold /\ e.res = CDXF(DStr(d, "specVersion")) /\ e.atype = "cyclonedx"
+                      /\ e.aversion = DStr(d, "specVersion") /\ e.aenc = "json")
+                 \/ (~d.bf_fold /\ DStr(d, "spdxVersion") = "SPDX-" \o e.aversion /\ e.res = SPDXJ(e.aversion)
+                      /\ e.atype = "spdx" /\ e.aenc = "json")
+              THEN {} ELSE {"sniff.unfounded"})
+        ELSE (IF d.tv = "SPDX-" \o e.aversion /\ e.res = SPDXT(e.aversion) /\ e.atype = "spdx" /\ e.aenc = "text"
+              THEN {} ELSE {"sniff.unfounded"}))
+  \* an exact declaration of a readable format is detected (any layout of it)
+  \cup (IF d.object /\ DStr(d, "bomFormat") = "CycloneDX" /\ DStr(d, "specVersion") \in {"1.3", "1.4", "1.5"}
+           /\ d.spdxVersion.t \in {"absent", "string"} /\ e.res # CDXF(DStr(d, "specVersion")) THEN {"sniff.missed"} ELSE {})
+  \cup (IF d.object /\ d.bomFormat.t = "absent" /\ d.specVersion.t = "absent" /\ DStr(d, "spdxVersion") = "SPDX-2.3"
+           /\ e.res # SPDXJ("2.3") THEN {"sniff.missed"} ELSE {})
+
 Outcomes(e) == {"total." \o e.fmt \o "." \o o.kind : o \in {x \in {e.w1, e.r1, e.w2, e.r2} : x.kind \in {"panic", "hang", "both", "neither", "exit"}}}
 
 Judge(e) ==
@@ -133,6 +188,12 @@ Judge(e) ==
                 ELSE IF r.o.kind \in {"hang", "exit"} /\ e.biglicenses /\ r.mode \in {"auto", "cdx13", "cdx15"}
                      THEN {"pf.cdx-licenses-exponential"}
                 ELSE {"pf." \o r.mode \o "." \o r.o.kind} : r \in Rng(e.results)}
+    [] e.op = "PARSE" -> JParse(e)
+    [] e.op = "IDGEN" ->
+         (IF e.o.kind = "ok" THEN {} ELSE {"idgen.total"})
+         \cup (IF e.nonempty /\ e.safe THEN {} ELSE {"idgen.alphabet"})
+         \cup (IF e.usable /\ e.id1 # e.id2 THEN {"idgen.deterministic"} ELSE {})
+    [] e.op = "SNIFF" -> JSniff(e)
     [] OTHER -> {"unknown-op." \o e.op}
 
 Init == l = 1
